@@ -7,6 +7,7 @@ package vsched
 import (
 	"fmt"
 	"runtime"
+	"runtime/debug"
 	"sort"
 	"strings"
 )
@@ -54,6 +55,8 @@ type Exec struct {
 	Horizon   bool
 	TraceHash string
 	AccLog    []AccessEvent
+	MapSites  map[string]int // map-range site -> largest number of keys iterated
+	MapTies   int            // keys the stable ordering could not distinguish (uncontrolled order)
 }
 
 // Sched is one controlled execution.
@@ -124,7 +127,7 @@ func Go(f func()) {
 		g.pending = nil
 		defer func() {
 			if r := recover(); r != nil {
-				s.exec.Panic = fmt.Sprintf("goroutine %d: %v", g.id, r)
+				s.exec.Panic = fmt.Sprintf("goroutine %d: %v\n%s", g.id, r, debug.Stack())
 			}
 			g.done = true
 			if !s.aborted {
